@@ -159,7 +159,20 @@ func (g *Gen) genMisuse(t *rapid.T) *Op {
 		}
 	}
 	alive := m.AliveList()
-	class := rapid.SampledFrom([]string{"stale", "stale", "stale", "dup-add", "remove-missing", "empty", "omitted-target", "dead-target", "batch", "dead-target-query", "bad-observer"}).Draw(t, "misuseClass")
+	class := rapid.SampledFrom([]string{"stale", "stale", "stale", "dup-add", "remove-missing", "empty", "omitted-target", "dead-target", "batch", "dead-target-query", "bad-observer", "register-locked"}).Draw(t, "misuseClass")
+	if class == "register-locked" {
+		// first use of a component type on a locked world: rejected, and the registration is rolled back; whatever is
+		// registered next gets the ID
+		if !g.It.locked() {
+			class = "stale"
+		} else {
+			op := &Op{K: "regLocked", E: -1, Sub: class}
+			if un := listOf(0xffff &^ m.Reg); len(un) > 0 && m.Reg != 0 && rapid.Bool().Draw(t, "universeType") {
+				op.E = rapid.SampledFrom(un).Draw(t, "unregistered")
+			}
+			return op
+		}
+	}
 	if class == "bad-observer" {
 		// a relation observer that observes a non-relation component: Register panics and nothing is registered
 		ev := rapid.SampledFrom([]int{EvAddRels, EvRemoveRels}).Draw(t, "relEvent")
@@ -592,6 +605,18 @@ func (it *Interp) opObsBad(op *Op) {
 		o.Register(b.W)
 	})
 	it.checkObserverCount()
+}
+
+// opRegLocked: the first use of a component type on a locked world panics and leaves nothing behind (the type is not
+// registered afterwards: ComponentIDs and the number of types are those of the model).
+func (it *Interp) opRegLocked(op *Op) {
+	it.run(op, false, func(b *Backend) {
+		if op.E >= 0 {
+			comps.Register(b.W, op.E)
+		} else {
+			ecs.TypeID(b.W, fillerType(b.Cfg.Filler+it.M.Extra))
+		}
+	})
 }
 
 // opBulkObs registers op.N observers that can never fire (they require and exclude the same component), checks the
